@@ -137,7 +137,7 @@ func newStore(kind string) store.Store {
 		ClearDB()
 		s := badgerstore.NewStore(DB)
 		if kind == "badger-prefix" {
-			s.SetPrefix("p")
+			s.SetPrefix("ba")
 		}
 		s.OnChange(cb)
 		return s
@@ -385,7 +385,7 @@ func init() {
 		return func() {
 			ClearDB()
 			mk := func() *badgerstore.Store {
-				s := badgerstore.NewStore(DB).SetPrefix("p")
+				s := badgerstore.NewStore(DB).SetPrefix("ba")
 				s.BeforeChange(func(id string, before, after interface{}) error {
 					vsched.Emit(Mon, "beforechange id="+id)
 					return nil
